@@ -16,6 +16,17 @@ def main():
     parser.add_argument("--replay")
     parser.add_argument("--workers", type=int, default=0)
     args = parser.parse_args()
+    if args.prop.startswith("_") and args.prop.endswith("-child"):
+        # a child interpreter never outlives the worker that started it (the worker may be ended by its own watchdog
+        # while the child is stuck in C code), and never runs longer than its own watchdog allows
+        import ctypes
+        import faulthandler
+        import signal
+        try:
+            ctypes.CDLL(None, use_errno=True).prctl(1, signal.SIGKILL)      # PR_SET_PDEATHSIG
+        except Exception:
+            pass
+        faulthandler.dump_traceback_later(int(os.environ.get("VERIF_CHILD_TIMEOUT", "420")), exit=True)
     if args.prop == "_digest-child":
         from dst import selftest
         return selftest.child_main(args.tier_or_spec)
